@@ -6,6 +6,7 @@ package core
 import (
 	"math/rand"
 	"net"
+	"runtime/debug"
 	"strings"
 
 	"github.com/gin-gonic/gin"
@@ -36,6 +37,8 @@ type w5Actor struct {
 	Bearer  bool   `json:"bearer,omitempty"`  // credentials in "Authorization: Bearer user:pass" instead of Basic
 	XFF     string `json:"xff,omitempty"`     // viewer: every request carries this forged X-Forwarded-For (no proxy is trusted)
 	StartMs int64  `json:"start_ms,omitempty"`
+	// viewer: starts when the publisher of cam1 is about to reconnect for the k-th time (0 = by the clock)
+	AtReconn int   `json:"at_reconn,omitempty"`
 	Ops     []w5Op `json:"ops"`
 }
 
@@ -192,6 +195,28 @@ func w5URIs(body string) []string {
 		out = append(out, line)
 	}
 	return out
+}
+
+// w5Stack returns the frames of the panicking call inside mediamtx (function and file:line).
+func w5Stack() string {
+	var out []string
+	lines := strings.Split(string(debug.Stack()), "\n")
+	for i := 0; i+1 < len(lines); i += 1 {
+		if strings.Contains(lines[i], "mediamtx/internal/") && !strings.HasPrefix(lines[i], "\t") && !strings.Contains(lines[i], "zzsim") && !strings.Contains(lines[i], "w5Stack") {
+			loc := strings.TrimSpace(lines[i+1])
+			if j := strings.Index(loc, " +0x"); j > 0 {
+				loc = loc[:j]
+			}
+			if j := strings.Index(loc, "/internal/"); j > 0 {
+				loc = loc[j+10:]
+			}
+			out = append(out, loc)
+		}
+		if len(out) >= 8 {
+			break
+		}
+	}
+	return "  at " + strings.Join(out, " < ")
 }
 
 // w5QuerySecret extracts session=<secret> from a URI.
